@@ -15,6 +15,10 @@ class Filter(base.Filter):
 
     def __iter__(self):
         preserve = 0
+        # True while the text emitted so far ends in a collapsed space, so
+        # that a run of whitespace split across adjacent text tokens (e.g.
+        # adjacent DOM text nodes) still collapses to a single space
+        after_space = False
         for token in base.Filter.__iter__(self):
             type = token["type"]
             if type == "StartTag" \
@@ -24,13 +28,18 @@ class Filter(base.Filter):
             elif type == "EndTag" and preserve:
                 preserve -= 1
 
-            elif not preserve and type == "SpaceCharacters" and token["data"]:
-                # Test on token["data"] above to not introduce spaces where there were not
-                token["data"] = " "
+            elif not preserve and type in ("SpaceCharacters", "Characters"):
+                # Empty tokens stay empty to not introduce spaces where there were not
+                data = collapse_spaces(token["data"])
+                if after_space and data.startswith(" "):
+                    data = data[1:]
+                if data:
+                    after_space = data.endswith(" ")
+                token["data"] = data
+                yield token
+                continue
 
-            elif not preserve and type == "Characters":
-                token["data"] = collapse_spaces(token["data"])
-
+            after_space = False
             yield token
 
 
